@@ -618,3 +618,44 @@ Proof.
   - unfold alloc; cbn. eapply map_res_cont_ext; eauto using content_of_ext, ext_alloc.
   - unfold alloc; cbn. eapply map_res_cont_ext; eauto using content_of_ext, ext_alloc.
 Qed.
+
+(* ------------------------------------------------------------------------- *)
+(* helpers for concrete histories *)
+
+(* changing the scalar members of any object the caller reaches is always legitimate *)
+Lemma caller_retag_ok : forall s l t t' ks,
+  Sep s -> reach (heap_of s) (held s) l -> lookup (heap_of s) l = Some (Cell t ks) ->
+  caller_ok s (CallerWrite l (Cell t' ks)).
+Proof.
+  intros s l t t' ks SP R L. split; auto. cbn. intros k I. split.
+  - eapply reach_step; eauto. exists (Cell t ks); auto.
+  - intro P. destruct SP as [_ Ac _ _ _]. apply (Ac l). eapply edge_rt_tc; eauto. exists (Cell t ks); auto.
+Qed.
+
+Lemma ok_trace_cons : forall s a t,
+  Sep s -> caller_ok s a -> (Sep (step_state s a) -> ok_trace (step_state s a) t) -> ok_trace s (a :: t).
+Proof. intros s a t SP OK K. split; auto. apply K. now apply step_state_Sep. Qed.
+
+(* reachability along an explicit path of child indices *)
+Fixpoint follow (h : heap) (l : loc) (path : list nat) : option loc :=
+  match path with
+  | [] => Some l
+  | i :: t =>
+      match lookup h l with
+      | Some c => match nth_error (children c) i with Some k => follow h k t | None => None end
+      | None => None
+      end
+  end.
+
+Lemma follow_rt : forall h path l m, follow h l path = Some m -> rt h l m.
+Proof.
+  induction path as [|i path IH]; cbn; intros l m H.
+  - inversion H. apply rt_here.
+  - destruct (lookup h l) as [c|] eqn:L; try discriminate.
+    destruct (nth_error (children c) i) as [k|] eqn:N; try discriminate.
+    eapply rt_trans'; [apply edge_rt; exists c; split; eauto using nth_error_In|]. auto.
+Qed.
+
+Lemma reach_by_path : forall h R n path r l,
+  nth_error R n = Some r -> follow h r path = Some l -> reach h R l.
+Proof. intros h R n path r l N F. exists r. split; [eapply nth_error_In; eauto|eapply follow_rt; eauto]. Qed.
